@@ -26,6 +26,9 @@ pub enum Fill {
     /// halves of double-width characters in unusual places: placeholder in column 0 (after
     /// DCH), lead in the last column without placeholder (drawn there, and pushed there by ICH)
     F7,
+    /// sparse rows: a short run of contiguous cells at the start of a never-erased row, plus
+    /// two lone cells further right (rows stay absent / sparse in the buffer)
+    F8,
 }
 
 #[derive(Clone, Copy, PartialEq, Eq, Debug)]
@@ -168,6 +171,20 @@ pub fn fill_script(f: Fill, c: u32, l: u32) -> Vec<Op> {
                 s.push(Op::Draw("\u{30a6}".into()));
                 s.push(cup(1, 1));
                 s.push(Op::Ich(Some(1)));
+            }
+        }
+        Fill::F8 => {
+            for y in 0..l.min(3) {
+                s.push(cup(y, 0));
+                s.push(Op::Draw("abcde".chars().take(c.min(5) as usize).collect()));
+                if c > 20 {
+                    s.push(cup(y, c / 2));
+                    s.push(Op::Draw("m".into()));
+                    s.push(cup(y, c / 2 + 2));
+                    s.push(Op::Draw("n".into()));
+                    s.push(cup(y, c - 3));
+                    s.push(Op::Draw("xyz".into()));
+                }
             }
         }
         Fill::F6 => {
